@@ -339,6 +339,8 @@ func (pe *pathEnum) eventsOfInstr(in ssa.Instruction) []pathItem {
 		out = append(out, pathItem{kind: "CALL-PREPROCESS", in: in})
 	case ci != nil && ci.dynamic && P.roleOf(ci.instr.Common().Value) == "coercer":
 		out = append(out, pathItem{kind: "COERCE", in: in})
+	case ci != nil && ci.dynamic && P.isFactoryValue(ci.instr.Common().Value):
+		out = append(out, pathItem{kind: "CALL-FACTORY", in: in})
 	case ci != nil && ci.static != nil && ci.static.Name() == "Push" && sameNamed(namedOf(ci.static.Signature.Recv().Type()), P.roles.PathB):
 		out = append(out, pathItem{kind: "PUSH", in: in})
 	case ci != nil && ci.static != nil && ci.static.Name() == "Pop" && sameNamed(namedOf(ci.static.Signature.Recv().Type()), P.roles.PathB):
@@ -463,4 +465,10 @@ func (P *Prog) nodePaths(fn *ssa.Function) ([]nodePath, bool) {
 	}
 	walk(fn.Blocks[0], nil, map[*ssa.BasicBlock]int{}, 0)
 	return pe.paths, pe.capHit
+}
+
+// isFactoryValue: v is a func value asserted out of ctx.Data.
+func (P *Prog) isFactoryValue(v ssa.Value) bool {
+	_, f := loadOfField(cvi(v))
+	return f != nil && sameField(f, P.roles.FData)
 }
